@@ -49,8 +49,11 @@ CLAIMED = {
         "first-TRUE level selection (NULL conditions fall through), TF divisor = max(tf_l, tf_r, minimum_u), documented TF factor, intermediate columns multiply to the Bayes factor, "
         "additive Fellegi-Sunter formula over the reals, probability = logistic in (0,1), infinite factor => probability 1, weight/probability thresholds keep exactly the rows at or above. "
         "The same definitions run at Float in the driver. Tie: every retained column of predict() vs the model on generated data x models (dict and creator construction, TF lookups, u=0, thresholds on scores); "
-        "closed-form log2 oracle on the real output.",
-        "Trusted: Lean kernel + standard axioms, Mathlib's real analysis (logb, rpow); floating-point rounding not modelled (1e-9 comparison); level conditions evaluated by the harness.",
+        "closed-form log2 oracle on the real output. The scoring SQL itself (gamma CASE ladder and Bayes-factor CASE per comparison, product with the prior odds, match_probability with its infinity branch, threshold "
+        "filter; models without TF) is captured from the running code with levels, factors, prior and threshold as parameters and translated to relational-algebra terms on every run (T-sql: Generated/ScoreSql.lean); "
+        "Properties/C02Sql.lean proves for any list of comparisons and levels that it selects the first TRUE level and computes B/(1+B) in exact rationals, equal to the Score model at Q.",
+        "Trusted: Lean kernel + standard axioms, Mathlib's real analysis (logb, rpow); floating-point rounding not modelled (1e-9 comparison); level conditions evaluated by the harness; T-sql translator + Rel.eval "
+        "(validated against the engines on every run); log2 is an uninterpreted function at the SQL level; the hand-written generic form of the CASE ladders (rfl-checked against three captured model shapes).",
         "DESIGN.md §6 C02",
     ),
     "C13": (
@@ -131,8 +134,11 @@ CLAIMED = {
         "Lean 4 theorems about a model of term_frequencies.py / completeness.py / comparison_vector_distribution.py / match_weights_histogram.py / unlinkables.py: TF = count(value)/count(non-NULL) "
         "with numerators summing to the denominator, the TF joined onto a record is its value's entry (NULL for NULL), completeness is an exact recount per dataset and column, comparison-vector groups "
         "and histogram bins partition the scored pairs with exact counts, bin containment/uniqueness and closest-width choice, unlinkables cumulative counts. Tie: the record lists of the real functions "
-        "vs the compiled model on NULL-heavy / single-valued / all-distinct columns, 1-3 tables, duckdb+sqlite; independent recount oracle.",
-        "Trusted: Lean kernel + standard axioms; float division and 32-bit casts not modelled (tolerances); SQLite vs DuckDB rounding at exact half-units excepted; scoring is C02's subject.",
+        "vs the compiled model on NULL-heavy / single-valued / all-distinct columns, 1-3 tables, duckdb+sqlite; independent recount oracle. All five descriptive SQL families (term-frequency table, completeness "
+        "sub-select, comparison-vector distribution for any list of gamma columns, histogram and unlinkables statements) are captured from the running code and translated to relational-algebra terms on every run "
+        "(T-sql: Generated/DescSql.lean); Properties/C20Sql.lean and C20Sql2.lean prove that under Rel.eval they return exactly the functional model's tables (exact rationals).",
+        "Trusted: Lean kernel + standard axioms; float division and 32-bit casts not modelled (tolerances); SQLite vs DuckDB rounding at exact half-units excepted; scoring is C02's subject; T-sql translator + Rel.eval "
+        "(validated against the engines on every run); the binning and rounding expressions are opaque inputs of the SQL-level theorems.",
         "DESIGN.md §6 C20",
     ),
     "C09": (
@@ -223,6 +229,8 @@ TECHNIQUE = {
     "C11": _TR.format("T-sql: the SQL statements of the threshold loop of cluster_pairwise_predictions_at_multiple_thresholds and of solve_connected_components; T-arith: threshold_args_to_match_prob_list of misc.py"),
     "C19": _TR.format("T-sql: the SQL statements compute_graph_metrics emits, as relational-algebra terms proved to refine the functional model"),
     "C15": _TR.format("T-sql: the truth-space SQL statements of accuracy.py, as relational-algebra terms proved to refine the functional model"),
+    "C02": _TR.format("T-sql: the scoring SQL (gamma / Bayes-factor CASE ladders, product, match_probability) with levels and factors as parameters, as relational-algebra terms proved equal to the Score model over exact rationals"),
+    "C20": _TR.format("T-sql: the term-frequency, completeness, comparison-vector-distribution, histogram and unlinkables SQL, as relational-algebra terms proved to refine the functional model"),
     "C14": _TR.format("T-sql: the counting SQL of blocking_analysis.py with the key expressions as parameters, proved to count the equi-join; T-arith: calculate_cartesian of misc.py"),
     "C01": _TR.format("T-sql: the SQL block_using_rules_sqls emits with the rule predicates as parameters, as relational-algebra terms proved to emit exactly the admissible pairs with their first satisfied rule"),
     "C12": _TR.format("T-sql: the SQL one_to_one_clustering emits, as relational-algebra terms proved to refine the functional model on tie-free inputs"),
